@@ -18,6 +18,7 @@ extern int g_error; /* ghost: an error was reported (exception thrown) */
 
 static inline int K_min_int(int a, int b) { return b < a ? b : a; }
 static inline int K_max_int(int a, int b) { return a < b ? b : a; }
+static inline int K_abs_int(int a) { return a < 0 ? -a : a; }
 static inline long K_min_long(long a, long b) { return b < a ? b : a; }
 static inline long K_max_long(long a, long b) { return a < b ? b : a; }
 
